@@ -17,7 +17,8 @@ TECHNIQUE = ('differential stateful testing: one Hypothesis-generated history ov
              '(out-of-range ints, wrong types, default-comparison objects); every call must give equal '
              'results or the same exception class, and after every call contents, node layout and pickle '
              'must be equal; unusable-key lookups must report absence and unusable writes must raise '
-             'TypeError and change nothing in both')
+             'TypeError and change nothing in both; '
+             'weighted union / intersection for the numeric-value families; every hand-made starting shape is first swept with every key and gap as bound of minKey / maxKey / keys() and as look-up key')
 RULE = ('a case is a configuration + history; each call is executed on both implementations.  '
         'Non-trivial: at least one out-of-domain argument reached a container with interior separators, or '
         'the containers reached >= 2 leaves and a removal happened.  Distinct = distinct case JSON.')
